@@ -4,6 +4,7 @@
 #include "mc/mc.hpp"
 #include "mc/faults.hpp"
 #include "checks/prt_common.hpp"
+#include "Stream/FileReader.h"
 #include <memory>
 #include <set>
 #include <functional>
@@ -76,6 +77,12 @@ void checkOne(Ctx& ctx, const std::vector<int>& cfg)
 		if (o3.cls != 'R') { bad("file-overloads-throw", o3.what); return; }
 		if (prtc::dump(af) != before) { bad("file-overload-read-differs-from-stream-read", ""); return; }
 		if (wf != w1) { bad("file-overload-write-differs-from-stream-write", ""); return; }
+		ArtFile at; std::vector<uint8_t> wt;
+		auto o4 = mc::guarded([&] { at = ArtFile::Read(Stream::FileReader(in)); mc::writeFile(out, std::vector<uint8_t>(w1.size() + 555, 0xEE)); at.Write(out); wt = mc::readFile(out); });   // temporary reader; output over an existing longer file
+		ctx.transition(2);
+		if (o4.cls != 'R') { bad("temporary-stream-overloads-throw", o4.what); return; }
+		if (prtc::dump(at) != before) { bad("temporary-stream-overload-read-differs", ""); return; }
+		if (wt != w1) { bad("write-over-existing-longer-file-differs", ""); return; }
 		ctx.count("file-overloads/round-trips");
 	}
 	ctx.state(); ctx.trace();
